@@ -1009,7 +1009,7 @@ def run_sweep_positions_single(bi, kind, pos):
 
 TIERS = {
     # runs: seeded composed-fault runs; produce: (n_xdis, n_stdlib) per producer
-    "quick": {"runs": 45000, "other_host_runs": 3000, "produce": (3, 3), "sweep_prefix_files": 0,
+    "quick": {"runs": 40000, "other_host_runs": 2000, "produce": (3, 3), "sweep_prefix_files": 0,
               "sweep_bytes_files": 0, "wall_cap": 100},
     "thorough": {"runs": 600000, "other_host_runs": 60000, "produce": (30, 40), "sweep_prefix_files": -1,
                  "sweep_bytes_files": -1, "wall_cap": 900, "sweep_wall_cap": 3300},
